@@ -220,6 +220,22 @@ class Scratch:
             f.write(line)
         self.overlay_log.append(f"{rel}: appended `#[cfg(kani)] #[path=contracts/kani/{modfile}] mod verif_kani_{stem};`")
 
+    def _abstract_regions(self, rest, rx, sl):
+        """rx["abstract"]: code regions (brace-matched blocks whose opening brace ends the unique
+        match of `open`) whose body is replaced by `body` - an abstraction of that region,
+        recorded in the overlay log."""
+        for ab in rx.get("abstract", []):
+            ms2 = list(re.finditer(ab["open"], rest, re.S))
+            if len(ms2) != 1:
+                raise AnchorLost(f"slice region /{ab['open']}/ matched {len(ms2)} times in {sl['fn_anchor']}")
+            bo2 = ms2[0].end() - 1
+            if rest[bo2] != "{":
+                raise AnchorLost(f"slice region /{ab['open']}/ does not end at an opening brace")
+            be2 = match_brace(rest, bo2)
+            self.overlay_log.append(f"{sl['file']}: K-slice `{sl['name']}`: region /{ab['open']}/ ({rest[bo2:be2].count(chr(10))} lines) abstracted to `{ab['body']}`")
+            rest = rest[:bo2] + "{ " + ab["body"] + " }" + rest[be2:]
+        return rest
+
     def add_slice(self, sl):
         """K-slice: verbatim statements of a method, appended as a `#[cfg(kani)]` method of the
         same impl (header copied mechanically).  Drops everything else in the function."""
@@ -244,7 +260,11 @@ class Scratch:
                 ms = list(re.finditer(rx["rest_of_block_after"], body, re.S))
                 if len(ms) != 1:
                     raise AnchorLost(f"slice anchor /{rx['rest_of_block_after']}/ matched {len(ms)} times in {sl['fn_anchor']}")
-                st_end = end_of_statement(body, ms[0].start())
+                if rx.get("anchor_is_block"):
+                    # the anchor statement is a brace block without a trailing `;` (`if .. { .. }`)
+                    st_end = match_brace(body, find_body_open(body, ms[0].start()))
+                else:
+                    st_end = end_of_statement(body, ms[0].start())
                 i2, depth = st_end, 0
                 while i2 < len(body):
                     j2 = _skip_string_or_comment(body, i2)
@@ -258,7 +278,7 @@ class Scratch:
                         if depth < 0:
                             break
                     i2 += 1
-                rest = LINE_COMMENT_RE.sub("", body[st_end:i2]).strip()
+                rest = LINE_COMMENT_RE.sub("", self._abstract_regions(body[st_end:i2], rx, sl)).strip()
                 stmts.append("for _verif_once in 0..1 {\n" + rest + "\n}" if rx.get("wrap_loop") else rest)
                 continue
             if isinstance(rx, dict) and "rest_of_fn_after" in rx:
@@ -270,16 +290,7 @@ class Scratch:
                 if len(ms) != 1:
                     raise AnchorLost(f"slice anchor /{rx['rest_of_fn_after']}/ matched {len(ms)} times in {sl['fn_anchor']}")
                 rest = body[end_of_statement(body, ms[0].start()):len(body) - 1]
-                for ab in rx.get("abstract", []):
-                    ms2 = list(re.finditer(ab["open"], rest, re.S))
-                    if len(ms2) != 1:
-                        raise AnchorLost(f"slice region /{ab['open']}/ matched {len(ms2)} times in {sl['fn_anchor']}")
-                    bo2 = ms2[0].end() - 1  # `open` ends with the region's opening brace
-                    if rest[bo2] != "{":
-                        raise AnchorLost(f"slice region /{ab['open']}/ does not end at an opening brace")
-                    be2 = match_brace(rest, bo2)
-                    self.overlay_log.append(f"{sl['file']}: K-slice `{sl['name']}`: region /{ab['open']}/ ({rest[bo2:be2].count(chr(10))} lines) abstracted to `{ab['body']}`")
-                    rest = rest[:bo2] + "{ " + ab["body"] + " }" + rest[be2:]
+                rest = self._abstract_regions(rest, rx, sl)
                 stmts.append(LINE_COMMENT_RE.sub("", rest).strip())
                 continue
             if isinstance(rx, dict):
@@ -296,14 +307,35 @@ class Scratch:
             if len(ms) != 1:
                 raise AnchorLost(f"slice statement /{rx}/ matched {len(ms)} times in {sl['fn_anchor']}")
             stmts.append(ms[0].group(0))
-        # enclosing impl header: nearest preceding line that starts with `impl`
-        hdr_start = body_src.rfind("\nimpl", 0, s0)
-        if hdr_start < 0:
-            raise AnchorLost("no enclosing impl for slice")
-        hdr_open = find_body_open(body_src, hdr_start + 1)
-        header = body_src[hdr_start + 1:hdr_open]
-        text = (f"\n// @@K-SLICE@@\n#[cfg(kani)]\n{header}{{\n    #[allow(dead_code, clippy::all)]\n    pub(crate) fn {sl['name']}({sl.get('params', '&self')}) -> {sl['ret']} {sl.get('where', '')} {{\n        "
-                + "\n        ".join(stmts) + f"\n        {sl['result']}\n    }}\n}}\n")
+        if sl.get("free_fn"):
+            # slice of a free function: generics and where clause copied mechanically from its signature
+            sig = body_src[s0:bo]
+            mfn = re.search(r"\bfn\s+\w+\s*", sig)
+            generics = ""
+            if mfn and mfn.end() < len(sig) and sig[mfn.end()] == "<":
+                depth, k = 0, mfn.end()
+                while k < len(sig):
+                    if sig[k] == "<":
+                        depth += 1
+                    elif sig[k] == ">" and sig[k - 1] != "-":
+                        depth -= 1
+                        if depth == 0:
+                            break
+                    k += 1
+                generics = sig[mfn.end():k + 1]
+            mw = re.search(r"\n\s*where\b", sig)
+            where = sig[mw.start():].strip() if mw else ""
+            text = (f"\n// @@K-SLICE@@\n#[cfg(kani)]\n#[allow(dead_code, clippy::all)]\npub(crate) fn {sl['name']}{generics}({sl.get('params', '')}) -> {sl['ret']}\n{where}\n{{\n        "
+                    + "\n        ".join(stmts) + f"\n        {sl['result']}\n}}\n")
+        else:
+            # enclosing impl header: nearest preceding line that starts with `impl`
+            hdr_start = body_src.rfind("\nimpl", 0, s0)
+            if hdr_start < 0:
+                raise AnchorLost("no enclosing impl for slice")
+            hdr_open = find_body_open(body_src, hdr_start + 1)
+            header = body_src[hdr_start + 1:hdr_open]
+            text = (f"\n// @@K-SLICE@@\n#[cfg(kani)]\n{header}{{\n    #[allow(dead_code, clippy::all)]\n    pub(crate) fn {sl['name']}({sl.get('params', '&self')}) -> {sl['ret']} {sl.get('where', '')} {{\n        "
+                    + "\n        ".join(stmts) + f"\n        {sl['result']}\n    }}\n}}\n")
         with open(path, "a") as f:
             f.write(text)
         if sl not in self.slices:
@@ -320,7 +352,7 @@ class Scratch:
             i = src.find("\n// @@K-SLICE@@")
             if i < 0:
                 break
-            bo = find_body_open(src, src.index("impl", i))
+            bo = find_body_open(src, i + len("\n// @@K-SLICE@@"))
             src = src[:i] + src[match_brace(src, bo):]
         open(path, "w").write(src)
 
